@@ -68,9 +68,16 @@ def strict_differs(a: Any, b: Any) -> bool:
 
 
 def jsonable_equal(a: Any, b: Any) -> bool:
-    if isinstance(a, float) and isinstance(b, (int, float)):
-        return a == b
-    return a == b
+    """a: what the SER shows; b: the value actually passed.  A value JSON cannot carry is shown as its repr."""
+    import json as _json
+
+    if core.same(a, b):
+        return True
+    try:
+        _json.dumps(b, sort_keys=True)
+    except Exception:
+        return isinstance(a, str) and (a == repr(b) or (a.endswith("…") and repr(b).startswith(a[:-1])))
+    return core.same(a, _json.loads(_json.dumps(b)))  # tuples come back as lists
 
 
 def judge_run(prog, ctx, detail, tz, scratch, digests: Dict[str, Dict[str, str]], pipeline=None) -> Tuple[Optional[Tuple[str, str]], dict]:
@@ -239,8 +246,23 @@ def _worker(chunk):
                                                 {"prog": list(prog), "ctx": ctx, "detail": detail, "tz": tz, "history": [a, b]}))
                             break
             continue
-        for ctx in contexts_c07(prog):
+        menu_ctxs: List[Tuple[Dict[str, Any], Optional[list]]] = [(c, None) for c in contexts_c07(prog)]
+        if len(prog) <= 2:
+            from mc.props.c01 import value_menu
+
+            keys = [k for k in gen.read_keys(prog) if k not in ("path", "b", "t_values")][:2]
+            full = {k: gen.KEY_VALUES.get(k, 0.0625) for k in keys}
+            for k in keys:
+                for vname, v in value_menu().items():
+                    menu_ctxs.append(({**full, k: v}, [k, vname]))
+        if len(prog) <= 2:
+            # the same content with its keys inserted in the opposite order: equal content => equal digests
+            menu_ctxs += [(dict(reversed(list(c.items()))), m) for c, m in list(menu_ctxs) if len(c) >= 2]
+        for ctx, menu in menu_ctxs:
             bad, info = judge_run(prog, ctx, detail, tz, scratch, digests)
+            if bad and menu:
+                bad = (bad[0] + "|unusual-value", f"context key {menu[0]} = {menu[1]}: {bad[1]}")
+                ctx = {kk: vv for kk, vv in ctx.items() if kk != menu[0]}
             info.pop("pipeline", None)
             out["n"] += 1
             out["sers"] += info.get("sers", 0)
@@ -249,7 +271,7 @@ def _worker(chunk):
                 out["nontrivial"].add(core.sha([prog, ctx]))
             if bad:
                 out["viol"].append((bad[0], f"{list(prog)} ctx={ctx} detail={detail} TZ={tz}: {bad[1]}",
-                                    {"prog": list(prog), "ctx": ctx, "detail": detail, "tz": tz}))
+                                    {"prog": list(prog), "ctx": ctx, "detail": detail, "tz": tz, "menu": menu}))
             if out["sample"] is None and info.get("sers", 0) >= 3:
                 out["sample"] = {"prog": list(prog), "ctx": ctx, "detail": detail, "tz": tz, "sers": info["sers"]}
         from mc.props.c01 import _housekeeping
@@ -331,8 +353,16 @@ def replay(case) -> List[Violation]:
     harness.quiet()
     scratch = harness.enter_scratch()
     set_tz(case.get("tz", "UTC"))
+    ctx = dict(case["ctx"])
+    if case.get("menu"):
+        from mc.props.c01 import value_menu
+
+        ctx[case["menu"][0]] = value_menu()[case["menu"][1]]
     try:
-        bad, info = judge_run(tuple(case["prog"]), case["ctx"], case["detail"], case.get("tz", "UTC"), scratch, {"data": {}, "ctx": {}})
+        dg: Dict[str, Dict[str, str]] = {"data": {}, "ctx": {}}
+        bad, info = judge_run(tuple(case["prog"]), ctx, case["detail"], case.get("tz", "UTC"), scratch, dg)
+        if not bad and len(ctx) >= 2:  # digest violations need the same content in the other insertion order as well
+            bad, info = judge_run(tuple(case["prog"]), dict(reversed(list(ctx.items()))), case["detail"], case.get("tz", "UTC"), scratch, dg)
     finally:
         set_tz("UTC")
-    return [Violation(bad[0], bad[1], case)] if bad else []
+    return [Violation(bad[0] + ("|unusual-value" if case.get("menu") else ""), bad[1], case)] if bad else []
